@@ -1,6 +1,6 @@
 ------------------------------ MODULE MCFacade ------------------------------
 EXTENDS Facade
-MCDefines == [d \in {"D1", "D2", "D3"} |-> IF d = "D1" THEN {"x"} ELSE {}]
+MCDefines == [d \in {"D1", "D2", "D3", "D4"} |-> IF d = "D1" THEN {"x"} ELSE {}]
 OptC12  == {<<"html", "F">>, <<"breaks", "T">>}
 OptC12T == {<<"html", "F">>, <<"html", "T">>, <<"breaks", "T">>, <<"store_labels", "T">>, <<"typographer", "T">>}
 OptC14  == {<<"highlight", "H">>, <<"breaks", "T">>}
